@@ -134,7 +134,7 @@ class Engine(object):
             self.asan = Proc([ASAN_BIN, "-"], aenv, os.path.join(sd, "asan.err"))
         self.n_asan = 0
 
-    def run(self, text, output=False):
+    def run(self, text, output=False, timeout=TIMEOUT_S):
         """-> dict: rc/errors/tables/output | {"died": code, "stderr"} | {"timeout": True}"""
         if self.h.p is None or self.h.p.poll() is not None:
             self.h.start()
@@ -143,7 +143,7 @@ class Engine(object):
             tail = self.h.stderr_tail()
             self.h.stop()
             return {"died": rc, "stderr": tail}
-        line = self.h.readline(TIMEOUT_S)
+        line = self.h.readline(timeout)
         if line is None:
             self.h.stop()
             return {"timeout": True}
@@ -157,7 +157,7 @@ class Engine(object):
             raise RuntimeError(res["harness"])
         return res
 
-    def run_asan(self, text):
+    def run_asan(self, text, timeout=2 * TIMEOUT_S):
         """-> None (ok) | {"died":..} | {"timeout": True}"""
         a = self.asan
         if a is None:
@@ -179,7 +179,7 @@ class Engine(object):
             tail = a.stderr_tail()
             a.stop()
             return {"died": rc, "stderr": tail}
-        line = a.readline(4 * TIMEOUT_S)
+        line = a.readline(timeout)
         if line is None:
             a.stop()
             return {"timeout": True}
@@ -715,10 +715,12 @@ def check_malformed(case, ctx):
     E = engine(ctx)
     text = host_punch(lines)
     cls = ["leg:malformed", "mutation:" + case.get("mutation", "?"), "reference:" + r.status]
-    res = E.run(text)
-    alive = check_alive(res, "USER_PUNCH(malformed)", r.status in ("ok", "error"))
-    if case.get("asan"):
-        a = E.run_asan("SOLUTION 1\n" + text[len("SOLUTION 1\n"):])
+    judged = r.status in ("ok", "error")
+    # a mutated program may loop for ever; where the reference gives no verdict the wait is short
+    res = E.run(text, timeout=TIMEOUT_S if judged else 10.0)
+    alive = check_alive(res, "USER_PUNCH(malformed)", judged)
+    if case.get("asan") and alive:
+        a = E.run_asan(text, timeout=2 * TIMEOUT_S if judged else 30.0)
         if a == "unavailable":
             ctx.event("asan:unavailable")
         elif a is None:
@@ -726,7 +728,7 @@ def check_malformed(case, ctx):
         elif "timeout" in a:
             ctx.event("asan:timeout")
             if r.status in ("ok", "error"):
-                raise Violation("hang", "ASan build: no answer within %.0f s for a program that ends in the reference" % (4 * TIMEOUT_S))
+                raise Violation("hang", "ASan build: no answer within %.0f s for a program that ends in the reference" % (2 * TIMEOUT_S))
         else:
             raise Violation("sanitizer", "ASan/UBSan build ended with status %s on a mutated program\n%s" % (a["died"], a.get("stderr", "")[:2500]))
     if not alive:
